@@ -50,6 +50,14 @@ CLAIMED["C07"] = {
     "engine": "E1+E3",
 }
 
+CLAIMED["C02"] = {
+    "text": "Proof over the reals that on the generic path exp satisfies the defining ODE of the matrix exponential along every ray "
+            "(d/ds T(exp(su)) = T(exp(su)) hat(u)), tends to I at 0, stays valid and never divides by zero, hence equals expm(hat t) for every t (L-ODE); "
+            "every Taylor branch is within 4*eps*scale of that closed form for all inputs of the branch (interval bound with bounded Taylor remainders).",
+    "note": _REAL + "L-ODE uniqueness lemma; A-TRIG/A-SQRT/A-TAYLOR. Not decided: floating-point accuracy / overflow.",
+    "technique": "contracts on the real templates; forward-mode differentiation of the traced DAG + polynomial normal form (ODE characterisation); interval bound between branches; z3 for SAFE",
+}
+
 NOT_APPLICABLE = {
     "C14": "quantifies over thread schedules; contract verification of one sequential call cannot express or decide data-race freedom (no thread model in any installed deductive back end for this C++ code) - see DESIGN.md section 5",
     "C19": "the oracle is the compiler's accept/reject verdict over a matrix of client programs, not a pre/postcondition of any function - see DESIGN.md section 5",
